@@ -912,9 +912,18 @@ func (vm *VirtualMachine) Call(
 	if err := vm.start(ctx); err != nil {
 		return nil, err
 	}
+	baseSP := vm.sp
 	defer func() {
 		if r := recover(); r != nil {
 			err = fmt.Errorf("panic: %v", r)
+		}
+		if err != nil {
+			// A failed call leaves the stack as it found it: a panic that
+			// interrupted the function with operands pending would otherwise
+			// use up a slot for good
+			for vm.sp > baseSP {
+				vm.pop()
+			}
 		}
 		vm.stop()
 	}()
